@@ -16,7 +16,7 @@ def run(tier, seed, replay_rows=None):
     ck.assumptions = ["free-running runs: events are logged by the harness's own scenario function / hook function under one mutex; "
                       "only invariants that are sound for that log order are checked (see DESIGN.md)"]
     kw = dict(workers=16, timeout=1800)
-    for mod, cfg in (("TriggerPool", "MC_TriggerPool_usable.cfg"), ("TriggerPool", "MC_TriggerPool_quick.cfg"), ("ContinuousPool", "MC_ContinuousPool_busy.cfg")):
+    for mod, cfg in (("TriggerPool", "MC_TriggerPool_usable.cfg"), ("TriggerPool", "MC_TriggerPool_quick.cfg"), ("MC_ContinuousPool", "MC_ContinuousPool_busy.cfg")):
         r = vlib.run_tlc(mod, cfg, **kw)
         vlib.require_tlc_ok(r, cfg)
         ck.add_tlc(cfg, r)
